@@ -398,6 +398,9 @@ Proof. induction path as [|b rest IH]; intros m n Jm Sub S Kok.
 Notation St := (@st R).
 Notation Op := (@op R).
 
+Section Cfg.
+Variable fx : bool.     (* see C23_Model.v: false = the code as it is, true = with patches/C23_extreme_setvalue.diff *)
+
 Record Inv (s : St) : Prop := mkInv {
   inv_wf : env_wf (s_env s); inv_pos : vars_pos (s_env s);
   inv_J : Forall (J (s_env s)) (s_trees s); inv_wfv : Forall (wf_vars (s_env s)) (s_trees s) }.
@@ -437,7 +440,7 @@ Proof. induction e; simpl; lia. Qed.
 Lemma vdep_pos (s : @vsrc R) : 1 <= vdep s.
 Proof. destruct s as [|e [|e' r]]; simpl; try lia. apply pdep_pos. Qed.
 
-Lemma pres_mach_init (E : Env) acc m : pres E (fst (mach_init ROps (E, acc) m)).
+Lemma pres_mach_init (E : Env) acc m : pres E (fst (mach_init ROps fx (E, acc) m)).
 Proof. destruct m as [x|d|f]; simpl.
   - eapply pres_trans; [apply (pres_set_stage E (Nat.max (e_stage E) (vdep (x_src x)))); lia|].
     apply pres_inval; lia.
@@ -445,9 +448,9 @@ Proof. destruct m as [x|d|f]; simpl.
     apply pres_set_stage; lia.
   - eapply pres_trans; [apply (pres_inval E (vdep (f_src f))); apply vdep_pos|].
     apply pres_set_stage; lia. Qed.
-Lemma pres_init (ms : list (@mach R)) : forall (E : Env) acc, pres E (fst (fold_left (mach_init ROps) ms (E, acc))).
+Lemma pres_init (ms : list (@mach R)) : forall (E : Env) acc, pres E (fst (fold_left (mach_init ROps fx) ms (E, acc))).
 Proof. induction ms as [|m r IH]; intros E acc; cbn [fold_left]; [apply pres_refl|].
-  destruct (mach_init ROps (E, acc) m) as [E1 acc1] eqn:M.
+  destruct (mach_init ROps fx (E, acc) m) as [E1 acc1] eqn:M.
   eapply pres_trans; [|apply IH]. pose proof (pres_mach_init E acc m) as Q. rewrite M in Q. exact Q. Qed.
 
 Lemma Inv_env (s : St) E' ms : pres (s_env s) E' -> Inv s -> Inv (mkSt E' (s_trees s) ms).
@@ -476,14 +479,14 @@ Proof. induction path as [|b rest IH]; intros m n; simpl.
   - intros [= <-] K. rewrite K. reflexivity.
   - destruct m; try discriminate; destruct b; intros H K; try discriminate; rewrite (IH _ _ H K); auto. Qed.
 
-Lemma step_inv (s : St) (o : Op) : Inv s -> well_staged s o -> Inv (fst (step ROps s o)).
+Lemma step_inv (s : St) (o : Op) : Inv s -> well_staged s o -> Inv (fst (step ROps fx s o)).
 Proof. intros I Ws. destruct o as [x0|g| |g| |i x0|j v0|i path k|j|j]; simpl.
   - apply Inv_env; auto. apply pres_set_time.
   - destruct (g <=? e_stage (s_env s)) eqn:L; simpl; [destruct s; exact I|].
     apply Nat.leb_gt in L. apply Inv_env; auto. apply pres_set_stage; lia.
   - apply Inv_env; auto. apply pres_refl.
   - apply Inv_env; auto. apply pres_inval; exact Ws.
-  - destruct (fold_left (mach_init ROps) (s_machs s) (s_env s, [])) as [E' ms] eqn:F. simpl.
+  - destruct (fold_left (mach_init ROps fx) (s_machs s) (s_env s, [])) as [E' ms] eqn:F. simpl.
     apply Inv_env; auto. pose proof (pres_init (s_machs s) (s_env s) []) as Q. rewrite F in Q. exact Q.
   - apply Inv_env; auto. apply pres_set_var.
   - destruct (nth_error (s_machs s) j) as [[x|d|f]|]; simpl; try (destruct s; exact I).
@@ -512,7 +515,7 @@ Proof. intros I Ws. destruct o as [x0|g| |g| |i x0|j v0|i path k|j|j]; simpl.
 
 Lemma step_obs (s : St) i path k m n : Inv s -> nth_error (s_trees s) i = Some m -> subtree path m = Some n ->
   k_ok n k = true -> dep_k n k <= e_stage (s_env s) ->
-  snd (step ROps s (GetT i path k)) = OVal [den_k (s_env s) n k].
+  snd (step ROps fx s (GetT i path k)) = OVal [den_k (s_env s) n k].
 Proof. intros [W P Jt Wt] N Sub K S. simpl. rewrite N.
   assert (Jm : J (s_env s) m) by (rewrite Forall_forall in Jt; apply Jt; eapply nth_error_In; eauto).
   destruct (tget_at_correct (s_env s) k path m n Jm Sub S K) as (v & m' & T & V & _).
@@ -527,9 +530,9 @@ Definition obs_ok (s : St) (o : Op) (b : @obs R) : Prop :=
   | _ => True
   end.
 Fixpoint ws_run (s : St) (ops : list Op) : Prop :=
-  match ops with [] => True | o :: r => well_staged s o /\ ws_run (fst (step ROps s o)) r end.
+  match ops with [] => True | o :: r => well_staged s o /\ ws_run (fst (step ROps fx s o)) r end.
 Fixpoint obs_run (s : St) (ops : list Op) : Prop :=
-  match ops with [] => True | o :: r => obs_ok s o (snd (step ROps s o)) /\ obs_run (fst (step ROps s o)) r end.
+  match ops with [] => True | o :: r => obs_ok s o (snd (step ROps fx s o)) /\ obs_run (fst (step ROps fx s o)) r end.
 
 Lemma arith_eval_correct (s : St) (ops : list Op) : Inv s -> ws_run s ops -> obs_run s ops.
 Proof. revert s. induction ops as [|o r IH]; intros s I Ws; simpl; auto. destruct Ws as [W1 W2]. split.
@@ -538,10 +541,10 @@ Proof. revert s. induction ops as [|o r IH]; intros s I Ws; simpl; auto. destruc
 
 (** [obs_run] speaks about exactly the observations [run] returns *)
 Lemma run_obs_nth (s : St) (ops : list Op) : forall j o, nth_error ops j = Some o ->
-  exists sj, nth_error (snd (run ROps s ops)) j = Some (snd (step ROps sj o)) /\
-             (obs_run s ops -> obs_ok sj o (snd (step ROps sj o))).
+  exists sj, nth_error (snd (run ROps fx s ops)) j = Some (snd (step ROps fx sj o)) /\
+             (obs_run s ops -> obs_ok sj o (snd (step ROps fx sj o))).
 Proof. revert s. induction ops as [|o' r IH]; intros s j o N; [destruct j; discriminate|].
-  cbn [run]. destruct (step ROps s o') as [s1 b] eqn:St1. destruct (run ROps s1 r) as [s2 bs] eqn:R.
+  cbn [run]. destruct (step ROps fx s o') as [s1 b] eqn:St1. destruct (run ROps fx s1 r) as [s2 bs] eqn:R.
   destruct j as [|j'].
   - simpl in N. injection N as ->. exists s. rewrite St1. simpl. split; auto. rewrite St1. simpl. tauto.
   - simpl in N. destruct (IH s1 j' o N) as (sj & A & B). exists sj. rewrite R in A. simpl. split; auto.
@@ -566,6 +569,8 @@ Proof. intros P Pr Wf. constructor; simpl; auto.
   - rewrite Forall_forall in *. intros m Hm. rewrite <- (Pr m Hm). apply J_erase_env0. Qed.
 
 
+End Cfg.
+
 (* ------------------------------------------------------------------ examples and refutations *)
 (** evaluation of the model on concrete real inputs without unfolding the real-number operations *)
 Ltac rcbv := cbv - [Rplus Rmult Rminus Ropp Rdiv Rinv sin cos IZR Rle_dec Rlt_dec Rabs sqrt exp tanh Ratan2 Rleb Rltb].
@@ -578,8 +583,8 @@ Example arith_eval_correct_example :
   let s := mkSt (env0 1%R [(5%R, 4)]) [mk_scale ROps 2%R (mk_plus ROps (MVar 0) (mk_sin ROps 1%R 3%R 0%R))] [] in
   let ops := [Realize 8; GetT 0 [] 0; SetVar 0 7%R; Realize 4; GetT 0 [] 0; SetTime 2%R; Realize 8; GetT 0 [false] 0;
               GetT 0 [false; true] 2; GetT 0 [] 0] in
-  Inv s /\ ws_run s ops /\ obs_run s ops /\
-  nth_error (snd (run ROps s ops)) 9 = Some (OVal [2 * (7 + 1 * sin (3 * 2 + 0))])%R.
+  Inv s /\ ws_run false s ops /\ obs_run false s ops /\
+  nth_error (snd (run ROps false s ops)) 9 = Some (OVal [2 * (7 + 1 * sin (3 * 2 + 0))])%R.
 Proof. intros s ops.
   assert (I : Inv s).
   { apply Inv_init.
@@ -589,14 +594,14 @@ Proof. intros s ops.
       assert (VB : forall m : Tree, 4 <= dep m -> vars_below (env0 1%R [(5%R, 4)]) m).
       { intros m D [|i] g _; unfold var_stage; simpl; [intros [= <-]; lia | destruct i; discriminate]. }
       simpl. repeat split; apply VB; simpl; lia. }
-  assert (W : ws_run s ops) by (unfold s, ops; ws_tac).
-  split; auto. split; auto. split; [apply arith_eval_correct; auto|].
+  assert (W : ws_run false s ops) by (unfold s, ops; ws_tac).
+  split; auto. split; auto. split; [apply (arith_eval_correct false); auto|].
   unfold s, ops. rcbv. reflexivity. Qed.
 
 (** proviso (b) cannot be dropped (known finding variable-change-leaves-dependents-valid): Plus(Variable=5, Time) at t=1
     with a Variable that invalidates Position; after setValue(100) the measure still reports 6 *)
 Lemma arith_eval_refuted_variable : exists (s : St) (ops : list Op),
-  env_wf (s_env s) /\ vars_pos (s_env s) /\ Forall (J (s_env s)) (s_trees s) /\ ws_run s ops /\ ~ obs_run s ops.
+  env_wf (s_env s) /\ vars_pos (s_env s) /\ Forall (J (s_env s)) (s_trees s) /\ ws_run false s ops /\ ~ obs_run false s ops.
 Proof.
   exists (mkSt (env0 1%R [(5%R, 5)]) [mk_plus ROps (MVar 0) MTime] []).
   exists ([Realize 8; GetT 0 [] 0; SetVar 0 100%R; Realize 8; GetT 0 [] 0]).
@@ -611,7 +616,7 @@ Proof.
 (** proviso (a) cannot be dropped (known finding getvalue-one-stage-early-survives-time-change): every request below passes
     the code's own stage check (none is refused), yet the last one reports 11 where the formula gives 12 *)
 Lemma arith_eval_refuted_early_get : exists (s : St) (ops : list Op),
-  Inv s /\ (forall j, nth_error (snd (run ROps s ops)) j <> Some OGuard) /\ ~ obs_run s ops.
+  Inv s /\ (forall j, nth_error (snd (run ROps false s ops)) j <> Some OGuard) /\ ~ obs_run false s ops.
 Proof.
   exists (mkSt (env0 1%R []) [mk_plus ROps MTime (MConst 10%R)] []).
   exists ([Realize 3; GetT 0 [] 0; SetTime 2%R; Realize 4; GetT 0 [] 0]).
